@@ -1030,7 +1030,8 @@ def r_fold_adjacent(ctx, rep, rule, modules, floor):
     rep.rule(rule, "variadic comparison folds compare adjacent operands in argument order: in each fold that takes the comparison "
              "as an `impl Fn(&T, &T) -> bool` (num_comp, string_comp, char_comp) the operands come off the stack last to "
              "first; inside the loop the predicate is applied to (operand popped in this iteration, operand carried from the "
-             "previous one) in that order, and the carried operand is then replaced by the one just popped. A fold that keeps "
+             "previous one) in that order, in every iteration (no pair is decided by a shortcut), and the carried operand is then "
+             "replaced by the one just popped. A fold that keeps "
              "comparing with the last operand, or applies the predicate the other way round, answers (< 2 1 3) with #t.")
     n = 0
     for p, f in sorted(facts.fns.items()):
@@ -1079,6 +1080,28 @@ def r_fold_adjacent(ctx, rep, rule, modules, floor):
                              f.short, ka[0], kb[0]), [t["loc"]])
                 continue
             rep.ok(rule, key + "|order", "%s applies the predicate to (just popped, carried)" % f.short, [t["loc"]])
+            # blocks that make the fold's answer false (assign the constant false to a bool local)
+            falsify = set()
+            for b3 in body:
+                for st in f.blocks[b3]["stmts"]:
+                    c3 = op_const(st["rv"].get("a")) if st["rv"]["k"] == "use" else None
+                    if c3 is not None and st["lhs"]["ty"] == "bool" and not st["lhs"]["p"] and st["lhs"]["l"] in f.names and c3.get("int") in (0, False) and "bool" in str(c3.get("ty", "bool")):
+                        falsify.add(b3)
+            skipping = []
+            for src, h in loops:
+                if f.dominates(bb, src):
+                    continue
+                # can an iteration go from the loop head to the latch touching neither the predicate nor a falsifying block?
+                avoid = {bb} | falsify
+                if h in avoid or src in avoid:
+                    continue
+                if src in f.reach_from(h, avoid=avoid):
+                    skipping.append(src)
+            (rep.fail if skipping else rep.ok)(
+                rule, key + "|every-pair", "%s can complete an iteration of its fold without applying the predicate to the pair: a "
+                "shortcut (identity, length, ...) decides some pairs by itself, which is wrong for at least the strict or the "
+                "reflexive predicates the fold serves" % f.short if skipping else
+                "%s applies the predicate in every iteration of the fold" % f.short, [t["loc"]])
             carried = kb[1]
             fresh_locals = set(ca)
             upd = False
